@@ -33,7 +33,13 @@ def side_prefixes(wl):
 LINKS = [('lib64', 'lib', 'lib'), ('usr/lib', 'usr/lib64', 'lib64'), ('plugins/c', 'plugins/a', 'a')]   # (link path, directory it stands for, link text)
 
 
-def gen_workload(rng, big=False, devel=False, same_prefix=False, extended=True):
+# options that change what is reported but need no model: used by the differential checks (C31, C14), never by C30
+SWARM_OPTS = ['--leaf-changes-only', '--impacted-interfaces', '--harmless', '--no-linkage-name', '--show-identical-binaries', '--no-show-locs', '--show-bytes',
+              '--show-hex', '--no-added-syms', '--no-unreferenced-symbols', '--dso-only', '--non-reachable-types', '--no-show-relative-offset-changes', '--no-abignore',
+              '--drop-private-types', '--full-impact', '--verbose']
+
+
+def gen_workload(rng, big=False, devel=False, same_prefix=False, extended=True, swarm=False):
     """A package pair as data: files = [{path, v1, v2}] where v1/v2 name a pool library or None.
     same_prefix: keep the pair where the tool's binary matching is unambiguous (see elf_dirs_prefix): if the removals and
     additions left the two sides with different ELF directory prefixes, a pair of binaries at the package root is added,
@@ -103,7 +109,13 @@ def gen_workload(rng, big=False, devel=False, same_prefix=False, extended=True):
         opts.append('--redundant')
     if nodbg and rng.chance(1, 2):
         opts.append('--fail-no-dbg')
+    if swarm:
+        for o in SWARM_OPTS:
+            if rng.chance(1, 8):
+                opts.append(o)
     wl = {'files': files, 'format': fmt, 'abignore': abignore, 'options': opts}
+    if swarm and rng.chance(1, 6):
+        wl['self_check'] = True    # abipkgdiff --self-check <first package>: every binary against its own ABIXML, in parallel
     if dirlink:
         wl['dirlink'] = dirlink
     if devel and rng.chance(1, 3):
@@ -173,6 +185,8 @@ def spec(wl, p1, p2, simt, parallel=True, extra=None):
         root = os.path.dirname(p1)
         devel = ['--devel-pkg1', os.path.join(root, 'pkg-f1-devel'), '--devel-pkg2', os.path.join(root, 'pkg-s1-devel')]
     argv = ['abipkgdiff'] + list(wl['options']) + ([] if parallel else ['--no-parallel']) + devel + list(extra or []) + [p1, p2]
+    if wl.get('self_check'):
+        argv = ['abipkgdiff'] + [o for o in wl['options'] if o != '--fail-no-dbg'] + ([] if parallel else ['--no-parallel']) + list(extra or []) + ['--self-check', p1]
     s = {'argv': argv, 'cpu_limit_s': 120}
     if simt is not None:
         s['simt'] = simt
